@@ -26,7 +26,8 @@ type Case struct {
 	Skel geomgen.Skel
 	Rot  int
 	Pair []int
-	Many int `json:",omitempty"` // > 0: a geometry of the skeleton's kind with this many members (vertices for flat kinds)
+	Many int  `json:",omitempty"` // > 0: a geometry of the skeleton's kind with this many members (vertices for flat kinds)
+	Near bool `json:",omitempty"` // every member of >= 3 vertices gets a copy of its first vertex, X moved by one ulp, appended (an almost closed ring)
 }
 
 func build(c Case) geom.Geom {
@@ -77,7 +78,34 @@ func build(c Case) geom.Geom {
 			return o
 		}
 	}
-	return geomgen.Build(c.Skel, func() geom.Point { x := val(); y := val(); return geom.Point{X: x, Y: y} })
+	g := geomgen.Build(c.Skel, func() geom.Point { x := val(); y := val(); return geom.Point{X: x, Y: y} })
+	if c.Near {
+		cl := func(p []geom.Point) []geom.Point {
+			if len(p) >= 3 {
+				return append(p, geom.Point{X: nearUlp(p[0].X), Y: p[0].Y})
+			}
+			return p
+		}
+		switch t := g.(type) {
+		case geom.LineString:
+			g = geom.LineString(cl(t))
+		case geom.MultiLineString:
+			for i := range t {
+				t[i] = cl(t[i])
+			}
+		case geom.Polygon:
+			for i := range t {
+				t[i] = cl(t[i])
+			}
+		case geom.MultiPolygon:
+			for i := range t {
+				for j := range t[i] {
+					t[i][j] = cl(t[i][j])
+				}
+			}
+		}
+	}
+	return g
 }
 
 // ---- independent OGC WKT parser ------------------------------------------------
@@ -308,7 +336,7 @@ func main() {
 		return
 	}
 	r := report.New("C17", tier, "model_checking")
-	r.Rule = "E1: every structure tree of the five WKT-encodable types with 1..3 members and 1..3(4) vertices per member x every rotation of 19 finite float64 patterns (full product for points, each pattern repeated on consecutive vertices, and every ordered pattern pair alternating between neighbouring vertices in the same ordinate): the text must be accepted by an independent recursive-descent parser of the OGC WKT grammar and parse to the same type, nesting and bit-identical coordinates; the bytes returned by Encode unchanged by later Encode calls (two- and three-call histories); geometries of 63..5000 members / vertices; MultiPoint, GeometryCollection and *Bounds must be rejected with an error. Non-trivial = geometries with >= 2 members."
+	r.Rule = "E1: every structure tree of the five WKT-encodable types with 1..3 members and 1..3(4) vertices per member x every rotation of 22 finite float64 patterns, also with every member of >= 3 vertices almost closed (first vertex repeated one ulp off) (full product for points, each pattern repeated on consecutive vertices, and every ordered pattern pair alternating between neighbouring vertices in the same ordinate): the text must be accepted by an independent recursive-descent parser of the OGC WKT grammar and parse to the same type, nesting and bit-identical coordinates; the bytes returned by Encode unchanged by later Encode calls (two- and three-call histories); geometries of 63..5000 members / vertices; MultiPoint, GeometryCollection and *Bounds must be rejected with an error. Non-trivial = geometries with >= 2 members."
 	cfg := geomgen.Config{MaxMembers: 3, Lens: []int{1, 2, 3}, FlatMax: 3, PolyRings: 2}
 	if tier == "thorough" {
 		cfg = geomgen.Config{MaxMembers: 3, Lens: []int{1, 2, 3, 4}, FlatMax: 5, PolyRings: 3}
@@ -377,6 +405,7 @@ func main() {
 		}
 		for rot := 0; rot < np; rot++ {
 			run(Case{Skel: s, Rot: rot})
+			run(Case{Skel: s, Rot: rot, Near: true})
 		}
 		// repeated vertices: every pattern pair (a,b) on all vertices
 		for a := 0; a < np; a++ {
@@ -443,4 +472,12 @@ func main() {
 	r.AddEvals(n)
 	r.AddNontrivial(nontrivial)
 	r.Finish()
+}
+
+// nearUlp is the float64 next to v (upwards, except at the top of the range).
+func nearUlp(v float64) float64 {
+	if v == math.MaxFloat64 {
+		return math.Nextafter(v, 0)
+	}
+	return math.Nextafter(v, math.Inf(1))
 }
